@@ -207,6 +207,28 @@ pub fn cases(_tier: &str, seed: u64) -> Vec<Case> {
             v.push(c);
         }
     }
+    // type and class crossed: under EVERY type word (the meta types TKEY / TSIG / IXFR .. ANY that usually travel with class
+    // ANY among them) a class the library does not support is an error and a supported one is read as it is - no pair of
+    // words makes an exception
+    for ty in 0..=65535u16 {
+        if ty == 41 { continue; } // (an OPT record carries the sender's UDP payload size where other records carry a class)
+        let mut c = Case::oracle_only().tag("type-class-crossed");
+        for w in [0u16, 5, 253, 255, 256, 0x80FF, 0x8000, 65535, 1, 2, 3, 4, 254, 0x8001, 0x80FE] {
+            let mut wire = vec![0u8, 1, 0x80, 0, 0, 0, 0, 1, 0, 0, 0, 0, 1, b'a', 0];
+            wire.extend_from_slice(&ty.to_be_bytes());
+            wire.extend_from_slice(&w.to_be_bytes());
+            wire.extend_from_slice(&[0, 0, 0, 9, 0, 0]);
+            let low = w & 0x7FFF;
+            let supported = matches!(low, 1 | 2 | 3 | 4 | 254);
+            match Packet::parse(&wire) {
+                Ok(p) => { let rec = p.answers.first();
+                           if !supported { c = c.fail("class-alias", format!("a record of type {} with class word {:#06x} is accepted as {:?}", ty, w, rec.map(|r| r.class))); break; }
+                           else if rec.map(|r| (r.class as u16, r.cache_flush)) != Some((low, w & 0x8000 != 0)) { c = c.fail("class-read", format!("type {} class word {:#06x}", ty, w)); break; } }
+                Err(_) => { if supported { c = c.fail("class-rejected", format!("a record of type {} and the supported class {:#06x} is rejected", ty, w)); break; } }
+            }
+        }
+        v.push(c);
+    }
     // every TYPE word on a received record, without RDATA (every type may come that way: RFC 2136 prerequisites and
     // deletions) and, for the types the library has no layout for, with opaque RDATA: the record is accepted, reports
     // the type its code denotes, and so does an owned copy of it, which also writes that code back
